@@ -431,7 +431,16 @@ def tolib(rules, optim=7, start="S"):
             L.append(ConsumptionRule(r[1], r[2], r[3]))
         else:
             L.append(DuplicationRule(r[1], r[2], r[3]))
+    if FORM == "iter":
+        return IndexedGrammar(Rules(iter(L), optim), start)
+    if FORM == "gen":
+        return IndexedGrammar(Rules((r for r in L), optim), start)
+    if FORM == "tuple":
+        return IndexedGrammar(Rules(tuple(L), optim), start)
     return IndexedGrammar(Rules(L, optim), start)
+
+
+FORM = None          # how the rule list is handed to Rules(): list (default), tuple, iterator, generator
 
 
 def small_exhaustive():
@@ -632,6 +641,20 @@ def run_case(c, stats):
         core.LOG.count("C17.order_independence")
         if len(verdicts) > 1:
             core.report(PROP, "order_independence", "verdict-depends-on-order-or-optim", None, tags_rules(rules))
+    global FORM
+    for form in ("iter", "gen", "tuple"):
+        # the documented "iterable of rules" in its other forms
+        FORM = form
+        try:
+            ok, g = call(tolib, list(rules), 7 if form != "gen" else 0)
+        finally:
+            FORM = None
+        if ok:
+            ok, v = call(g.is_empty)
+            if ok and bool(v) != (not ne):
+                with core.oracle_mode():
+                    core.report(PROP, "is_empty", "wrong-empty-for-listed-rules" if v else
+                                "wrong-nonempty-for-listed-rules", {"form": form}, tags_rules(rules) + ["form:" + form])
     for optim in (0, 1, 8, 7):
         # clean-up asked FIRST of a fresh grammar (nothing has run the marking yet), for the orderings that do not
         # touch the consumption table themselves
